@@ -653,3 +653,205 @@ Print Assumptions C03_source_end_to_end_roundtrip_box_stream.
 Print Assumptions C03_source_end_to_end_roundtrip_sym_stream.
 Print Assumptions C03_source_end_to_end_no_key.
 
+(* =========================================== PART C03: props/C03.v ======================================= *)
+From SP Require GoAstEntry GoAstProofs5a GoAstProofs5c GoAstProofs6a GoAstProofs6b GoEndToEndEnc GoEndToEndSign GoAstProofs8a.
+(* ---- source ties: the CONSTRUCTOR and ONE-SHOT entry points of the signcryption sender (/repo/signcrypt_seal.go:
+   newSigncryptSealStream, NewSigncryptSealStream, signcryptSeal, SigncryptSeal), lemmas of proofs/GoAstProofs8a.v ----
+   newSigncryptSealStream returns g_sss st' (st' = what sss_init, the translated init by GoAstProofs6b, leaves on
+   fresh_sss W signer: Version2(), zero keys, counter 0), the object the ties of Write / Close and the sessions of
+   GoEndToEndEnc.v start from (nsss_session_start), or (nil, err).  signcryptSeal: NOT EXPRESSIBLE beyond glue / stale /
+   aliased, as for seal; signcryptSeal_spec_model: the specification session returns the model's signcrypt_seal_stream bytes. *)
+Section C03_source_entry.
+Import GoAstEntry GoAstProofs8a.
+Local Open Scope string_scope.
+
+Theorem C03_source_go_newSigncryptSealStream :
+  forall (c : crypto) (enc_step : gval -> bytes -> gval * B.gerr) (W : gval) (signer : option bytes)
+    (boxes : list bytes) (syms : list (bytes * bytes)) (ra rk rb : bytes),
+  let r :=
+    run_func2 (ext_nsss c enc_step) f_saltpack_newSigncryptSealStream
+      [W; B.g_signer signer; VList (map VBytes boxes); VList (map B.g_sym syms); VBytes rb; B.g_rng ra rk] in
+  match B.sss_init c enc_step (fresh_sss W signer) boxes syms ra rk rb with
+  | B.IPanic => fst r = OStuck "call"
+  | B.IRet e st' ra' rk' rb' =>
+      fst r = ORet match e with
+                   | Some _ => [VNil; B.g_errv e]
+                   | None => [B.g_sss st'; VNil]
+                   end /\
+      lookup "rng" (snd r) = Some (B.g_rng ra' rk') /\ lookup "ephemeralKeyCreator" (snd r) = Some (VBytes rb')
+  end.
+Proof. exact go_newSigncryptSealStream. Qed.
+
+Theorem C03_source_go_NewSigncryptSealStream :
+  forall (CALLEE : list gval -> option (gval * GoAstProofs5a.gerr)) (W EK S B Y : gval),
+  fst (run_func2 (ext_wrap CALLEE "newSigncryptSealStream") f_saltpack_NewSigncryptSealStream [W; EK; S; B; Y]) =
+  wrap_outcome CALLEE [W; S; B; Y; EK; VStruct []].
+Proof. exact go_NewSigncryptSealStream. Qed.
+
+Theorem C03_source_go_NewSigncryptSealStream_spec :
+  forall (c : crypto) (es : gval -> bytes -> gval * B.gerr) (ra rk rb : bytes) (W EK : gval)
+    (signer : option bytes) (boxes : list bytes) (syms : list (bytes * bytes)),
+  fst
+    (run_func2 (ext_wrap (NSSS_spec c es ra rk rb) "newSigncryptSealStream") f_saltpack_NewSigncryptSealStream
+       [W; EK; B.g_signer signer; VList (map VBytes boxes); VList (map B.g_sym syms)]) =
+  nsss_outcome c es W signer boxes syms ra rk rb.
+Proof. exact go_NewSigncryptSealStream_spec. Qed.
+
+Theorem C03_source_go_SigncryptSeal :
+  forall (CALLEE : list gval -> option (gval * GoAstProofs5a.gerr)) (P EK S B Y : gval),
+  fst (run_func2 (ext_wrap CALLEE "signcryptSeal") f_saltpack_SigncryptSeal [P; EK; S; B; Y]) =
+  wrap_outcome CALLEE [P; S; B; Y; EK; VStruct []].
+Proof. exact go_SigncryptSeal. Qed.
+
+Theorem C03_source_go_SigncryptSeal_spec :
+  forall (c : crypto) (ra rk rb p : bytes) (EK : gval) (signer : option bytes) (boxes : list bytes)
+    (syms : list (bytes * bytes)),
+  fst
+    (run_func2 (ext_wrap (SCSEAL_spec c ra rk rb) "signcryptSeal") f_saltpack_SigncryptSeal
+       [VBytes p; EK; B.g_signer signer; VList (map VBytes boxes); VList (map B.g_sym syms)]) =
+  signcryptSeal_spec c p signer boxes syms ra rk rb.
+Proof. exact go_SigncryptSeal_spec. Qed.
+
+Theorem C03_source_go_signcryptSeal_glue :
+  forall (NEW : list gval -> option (gval * GoAstProofs5a.gerr * gval))
+    (WR : gval -> gval -> option (gval * GoAstProofs5a.gerr * gval))
+    (CL : gval -> option (GoAstProofs5a.gerr * gval)) (BY : gval -> option gval) (P S B Y EK RNG : gval),
+  fst
+    (run_func2 (ext_glue NEW WR CL BY "newSigncryptSealStream" 0) f_saltpack_signcryptSeal [P; S; B; Y; EK; RNG]) =
+  glue_outcome NEW WR CL [VNil; S; B; Y; EK; RNG] P (fin_bytes BY).
+Proof. exact go_signcryptSeal_glue. Qed.
+
+Theorem C03_source_go_signcryptSeal_aliased :
+  forall (c : crypto) (BY : gval -> option gval) (p : bytes) (signer : option bytes) 
+    (boxes : list bytes) (syms : list (bytes * bytes)) (ra rk rb : bytes),
+  (forall (st1 st2 st3 : B.sss_state) (n : Z) (ra' rk' rb' : bytes),
+   B.sss_init c B.mem_enc (fresh_sss (VBytes []) signer) boxes syms ra rk rb = B.IRet None st1 ra' rk' rb' ->
+   B.sss_write c B.mem_enc st1 p = B.WRet n None st2 ->
+   B.sss_close c B.mem_enc st2 = B.CloseRet None st3 -> BY (B.ss_enc st1) = Some (B.ss_enc st3)) ->
+  fst
+    (run_func2 (ext_glue (NEW_sc c) (WR_sss c) (CL_sss c) BY "newSigncryptSealStream" 0)
+       f_saltpack_signcryptSeal (scseal_args p signer boxes syms ra rk rb)) =
+  signcryptSeal_spec c p signer boxes syms ra rk rb.
+Proof. exact go_signcryptSeal_aliased. Qed.
+
+Theorem C03_source_go_signcryptSeal_stale :
+  forall (c : crypto) (p : bytes) (signer : option bytes) (boxes : list bytes) (syms : list (bytes * bytes))
+    (ra rk rb : bytes) (st1 st2 st3 : B.sss_state) (n : Z) (ra' rk' rb' : bytes),
+  B.sss_init c B.mem_enc (fresh_sss (VBytes []) signer) boxes syms ra rk rb = B.IRet None st1 ra' rk' rb' ->
+  B.sss_write c B.mem_enc st1 p = B.WRet n None st2 ->
+  B.sss_close c B.mem_enc st2 = B.CloseRet None st3 ->
+  fst
+    (run_func2 (ext_glue (NEW_sc c) (WR_sss c) (CL_sss c) (fun b : gval => Some b) "newSigncryptSealStream" 0)
+       f_saltpack_signcryptSeal (scseal_args p signer boxes syms ra rk rb)) = ORet [B.ss_enc st1; VNil].
+Proof. exact go_signcryptSeal_stale. Qed.
+
+Theorem C03_source_signcryptSeal_spec_model :
+  forall c : crypto,
+  (forall k n m : bytes, length (sb_seal c k n m) = (16 + length m)%nat) ->
+  (forall s m : bytes, length (ed_sign c s m) = 64%nat) ->
+  forall (p : bytes) (signer : option bytes) (boxes : list bytes) (syms : list (bytes * bytes)) 
+    (r r' : rng) (wire : bytes),
+  (length p <= 295 * B.blk)%nat ->
+  signcrypt_seal_stream c signer boxes syms [p] r = Ok (wire, r') ->
+  signcryptSeal_spec c p signer boxes syms r (snd (E.sc_model_sources boxes syms r))
+    (fst (E.sc_model_sources boxes syms r)) = ORet [VBytes wire; VNil].
+Proof. exact signcryptSeal_spec_model. Qed.
+
+Theorem C03_source_compose_signcryptSealStream_init :
+  forall (c : crypto) (enc_step : gval -> bytes -> gval * A.gerr) (o : gval) (st : B.sss_state)
+    (boxes : list bytes) (syms : list (bytes * bytes)) (ra rk rb : bytes),
+  sss_of_lit o = Some st ->
+  let r :=
+    run_func2 (B.ext_init c enc_step) f_saltpack_signcryptSealStream_init
+      [B.g_sss st; VList (map VBytes boxes); VList (map B.g_sym syms); VBytes rb; B.g_rng ra rk] in
+  match
+    ext_nsss c enc_step "signcryptSealStream.init"
+      [o; VList (map VBytes boxes); VList (map B.g_sym syms); VBytes rb; B.g_rng ra rk]
+  with
+  | Some [] => False
+  | Some [e] => False
+  | Some [e; sss'] | Some [e; sss'; _] | Some [e; sss'; _; _] => False
+  | Some [e; sss'; _; _; ek'] => False
+  | Some (e :: sss' :: _ :: _ :: ek' :: rng' :: _) =>
+      fst r = ORet [e] /\
+      lookup "sss" (snd r) = Some sss' /\
+      lookup "rng" (snd r) = Some rng' /\ lookup "ephemeralKeyCreator" (snd r) = Some ek'
+  | None => fst r = OPanic
+  end.
+Proof. exact compose_signcryptSealStream_init. Qed.
+
+Theorem C03_source_compose_WR_sss :
+  forall (c : crypto) (st : B.sss_state) (p : bytes),
+  let r := run_func2 (B.ext_wr c B.mem_enc) f_saltpack_signcryptSealStream_Write [B.g_sss st; VBytes p] in
+  match WR_sss c (B.g_sss st) (VBytes p) with
+  | Some (n, e, s') => fst r = ORet [n; GoAstProofs5a.g_errv e] /\ lookup "sss" (snd r) = Some s'
+  | None => exists w : String.string, fst r = OStuck w
+  end.
+Proof. exact compose_WR_sss. Qed.
+
+Theorem C03_source_compose_CL_sss :
+  forall (c : crypto) (st : B.sss_state),
+  let r := run_func2 (B.ext_wr c B.mem_enc) f_saltpack_signcryptSealStream_Close [B.g_sss st] in
+  match CL_sss c (B.g_sss st) with
+  | Some (e, s') => fst r = ORet [GoAstProofs5a.g_errv e] /\ lookup "sss" (snd r) = Some s'
+  | None => (exists w : String.string, fst r = OStuck w) \/ fst r = OPanic
+  end.
+Proof. exact compose_CL_sss. Qed.
+
+Theorem C03_source_nsss_session_start :
+  forall (c : crypto) (signer : option bytes) (boxes : list bytes) (syms : list (bytes * bytes))
+    (ra rk rb : bytes) (obj : gval),
+  nsss_outcome c B.mem_enc (VBytes []) signer boxes syms ra rk rb = ORet [obj; VNil] ->
+  E.fresh_sss signer (fresh_sss (VBytes []) signer) /\
+  E.go_sss_init c (B.g_sss (fresh_sss (VBytes []) signer)) boxes syms ra rk rb = Some obj.
+Proof. exact nsss_session_start. Qed.
+
+Theorem C03_source_go_signcrypt_session_from_NewSigncryptSealStream :
+  forall (c : crypto) (EK : gval) (signer : option bytes) (boxes : list bytes) (syms : list (bytes * bytes))
+    (ra rk rb : bytes) (pieces : list bytes) (obj : gval),
+  fst
+    (run_func2 (ext_wrap (NSSS_spec c B.mem_enc ra rk rb) "newSigncryptSealStream")
+       f_saltpack_NewSigncryptSealStream
+       [VBytes []; EK; B.g_signer signer; VList (map VBytes boxes); VList (map B.g_sym syms)]) =
+  ORet [obj; VNil] ->
+  E.fresh_sss signer (fresh_sss (VBytes []) signer) /\
+  E.go_signcrypt_session c (B.g_sss (fresh_sss (VBytes []) signer)) boxes syms ra rk rb pieces =
+  match E.go_sss_writes c obj pieces with
+  | Some s2 => E.go_sss_close c s2
+  | None => None
+  end.
+Proof. exact go_signcrypt_session_from_NewSigncryptSealStream. Qed.
+
+Theorem C03_source_signcryptSeal_spec_model_err :
+  forall (c : crypto) (p : bytes) (signer : option bytes) (boxes : list bytes) (syms : list (bytes * bytes))
+    (r : rng),
+  let rb := fst (E.sc_model_sources boxes syms r) in
+  let rk := snd (E.sc_model_sources boxes syms r) in
+  (forall e : err,
+   sc_check_receivers boxes syms = Err e ->
+   signcryptSeal_spec c p signer boxes syms r rk rb = ORet [VNil; GoAstProofs5a.g_errv (B.check_err boxes syms)] /\
+   B.check_err boxes syms <> None /\ signcrypt_seal_stream c signer boxes syms [p] r = Err e) /\
+  (sc_check_receivers boxes syms = Ok tt ->
+   shuffle (B.all_rcpts boxes syms) r = None \/ read_full 32 rb = None \/ read_full 32 rk = None ->
+   signcrypt_seal_stream c signer boxes syms [p] r = Err ErrRand /\
+   signcryptSeal_spec c p signer boxes syms r rk rb = ORet [VNil; VErr "ErrRand" []]).
+Proof. exact signcryptSeal_spec_model_err. Qed.
+
+End C03_source_entry.
+
+Print Assumptions C03_source_go_newSigncryptSealStream.
+Print Assumptions C03_source_go_NewSigncryptSealStream.
+Print Assumptions C03_source_go_NewSigncryptSealStream_spec.
+Print Assumptions C03_source_go_SigncryptSeal.
+Print Assumptions C03_source_go_SigncryptSeal_spec.
+Print Assumptions C03_source_go_signcryptSeal_glue.
+Print Assumptions C03_source_go_signcryptSeal_aliased.
+Print Assumptions C03_source_go_signcryptSeal_stale.
+Print Assumptions C03_source_signcryptSeal_spec_model.
+Print Assumptions C03_source_compose_signcryptSealStream_init.
+Print Assumptions C03_source_compose_WR_sss.
+Print Assumptions C03_source_compose_CL_sss.
+Print Assumptions C03_source_nsss_session_start.
+Print Assumptions C03_source_go_signcrypt_session_from_NewSigncryptSealStream.
+Print Assumptions C03_source_signcryptSeal_spec_model_err.
+
